@@ -9,7 +9,7 @@ TARGETS = ["Base/Corr.vo", "C19/Model.vo", "C19/ModelP.vo", "C19/ModelW.vo", "C1
            "C19/ProofsW1.vo", "C19/ProofsW2.vo", "C19/ProofsW3.vo", "C19/ProofsW4.vo", "C19/ProofsFlag.vo",
            "C19/ProofsW6.vo", "C19/ProofsW5.vo", "C19/PropsW.vo",
            "C19/ModelH.vo", "C19/ProofsH1.vo", "C19/ProofsH2.vo", "C19/ProofsH3.vo", "C19/ProofsH4.vo", "C19/ProofsH5.vo",
-           "C19/ProofsSafe.vo", "C19/PropsH.vo"]
+           "C19/ProofsH6.vo", "C19/ProofsH7.vo", "C19/ProofsSafe.vo", "C19/PropsH.vo"]
 PROPS = ["C19/Props.v", "C19/PropsW.v", "C19/PropsH.v"]
 PARTIAL = ("Proved in Coq for ALL operation histories with int64 keys. About the value-level world model coq/C19/Model.v: "
            "(1) every tree of every reachable world is a search tree whose balance fields equal the height difference "
@@ -41,8 +41,14 @@ PARTIAL = ("Proved in Coq for ALL operation histories with int64 keys. About the
            "ModelW.stale_cell records, returns node, frame. (11) SafeIterator/SafeIteratorFrom (= Clone; Iterator[From] on a clone only "
            "the iterator references; also indexSafeIterator[From]): in every reachable world and for any later history not mutating "
            "the hidden clone, the iterator starts on the least key (>= i) of the source at creation, the clone's key list stays that "
-           "snapshot, and every Next moves to the first SNAPSHOT key greater than the cursor. NOT proved: balance1/balance2 statement "
-           "lists = ModelP.pbalance1/2 (tied by the translator and run on examples only); the recursive insert/delete/deleteRec are "
+           "snapshot, and every Next moves to the first SNAPSHOT key greater than the cursor. (12) balance1 / balance2 (the rebalancing step of "
+           "delete and deleteRec): on ANY heap holding a tree whose root has Balance in -1..1 and the heavy-side child (and inner grandchild "
+           "when that child leans inwards) the code dereferences, the statement list — its rotation calls being the statement lists of (10) run "
+           "through the call statement — does not panic, leaves a heap holding exactly fst (ModelP.pbalance1/2 t) (incl. the single rotation "
+           "with a balanced child and the double rotation with a balanced two-child pivot, which only the delete path reaches), writes to no "
+           "other object and returns balanced = snd (pbalance1/2 t) || caller's flag; Balance = 1 without a right child panics; the shape "
+           "hypothesis follows from the invariant of (1) at the call sites (both subtrees AVL, Balance field still the height difference from "
+           "before one subtree lost a level). NOT proved: the recursive insert/delete/deleteRec are "
            "modelled tree-shaped (ModelP), not as statement lists on the heap, so the step heap-level recursion -> pins/pdel/pdelmax "
            "(which call the statement-level methods proved above) rests on the correspondence: every step of every generated history is "
            "compared on flags, values, tree checksum (read through Emtpy/Value/Left/Right), key lists and on a checksum of the WHOLE heap as Go has it (node "
@@ -50,7 +56,11 @@ PARTIAL = ("Proved in Coq for ALL operation histories with int64 keys. About the
            "fields they were left with, the node pointer of every iterator via the add-only hook verif_c19.go; Safe iterators are one "
            "Go call compared with the two model steps Clone; Iterator[From], the hidden clone's objects included; one third of the "
            "histories run through the vector_sparse_index.go wrappers via verif_c19h.go, where indexInsert/indexDelete drop the flag "
-           "and it is observed as a change of the number of reachable objects). AvlNode.string / AvlTree.String are not modelled. The "
+           "and it is observed as a change of the number of reachable objects; one fifth of the histories start from an AVL shape built "
+           "without rotations followed by ONE deletion that reaches rotateLR/rotateRL from balance2/balance1 (leaf, one-child, two-children "
+           "delete, inside deleteRec, at and below the root, mirrored, scaled) with a BALANCED pivot holding TWO children — counted on the "
+           "real tree by a read-only detector, the plugin requires the count to be positive —, one fifth contain SafeIteratorFrom(lo) "
+           "followed by inserts/deletes on the SOURCE at lo..lo+8 interleaved with Next on the safe iterator). AvlNode.string / AvlTree.String are not modelled. The "
            "refinement ModelW -> Model is an equation for every step other than Clone (erase(pwstep w o) = step(erase w) o on "
            "trees, tombstones, iterators and the complete output, up to Model.v's per-tree allocation counters) and "
            "observational across Clone (same output, shape-equal appended tree; both worlds refine the set specification) "
@@ -98,6 +108,16 @@ def corr(ctx, binary, n, corpus):
         return []
     meta = json.load(open(os.path.join(ctx.dir, "cases.meta.json")))
     vlib.merge_meta(ctx, meta)
+    # round 7: the configurations only the delete path / a live safe iterator reach must be generated
+    hist = meta.get("histogram", {})
+    dbl = hist.get("del:double-rotation-with-balanced-two-child-pivot(histories)", 0)
+    burst = hist.get("directed:safe-from-burst", 0)
+    ctx.log("generator: %d histories with a deletion reaching a double rotation with a balanced two-child pivot, "
+            "%d with SafeIteratorFrom + mutation of the source during the iteration" % (dbl, burst))
+    if n >= 100 and (dbl == 0 or burst == 0):
+        ctx.violation({"obligation": "C19 generator coverage", "double_rotation_balanced_pivot": dbl, "safe_from_burst": burst},
+                      False, "the generated histories no longer reach the delete-path double rotation with a balanced "
+                      "two-child pivot / the safe-iterator burst (detector of harness/c19/directed.go on the real tree)")
     # numeric order (cases_10.v sorts after cases_9.v): mismatch indices are mapped back to cases.jsonl
     shards = sorted(glob.glob(os.path.join(ctx.dir, "cases_*.v")),
                     key=lambda p: int(os.path.basename(p)[len("cases_"):-2]))
